@@ -41,7 +41,9 @@ var (
 
 const refresh = time.Minute
 
-var sources = []gostatsd.Source{"10.0.0.1", "10.0.0.2", "10.0.0.3", "10.0.0.4"}
+// two of the sources are other spellings of an address (of another source, of no other source): a source is what was submitted,
+// and it is answered and cached under that
+var sources = []gostatsd.Source{"10.0.0.1", "10.0.0.2", "10.0.0.3", "10.0.0.4", "::ffff:10.0.0.1", "2001:DB8::A"}
 
 type outcome int
 
